@@ -318,6 +318,26 @@ def generate(repo):
     A('def vegaflux {K : Type} [NatCast K] [Mul K] [Div K] [Add K] [Sub K] (H C : K) (band : Band) (wu : WUnit) (vu : FUnit) : K × K :=\n' + '\n'.join(lines))
     notes = {'wave': {f'{a}->{b}': str(q) for (a, b), q in wave.items()}, 'aliases': aliases,
              'constants': {k: str(v) for k, v in consts.items()}}
+    # ---- Unit(name): the name -> class dispatch (lower-cased names of every branch), as the `name` attribute of the class returned
+    if ast.unparse(ufn.body[-1] if not isinstance(ufn.body[-1], ast.If) else outer[0].orelse[0]) != 'return None': raise Refuse('Unit(None) does not return None')
+    def _cls_name(c):
+        nm = [s_ for s_ in classes[c].body if isinstance(s_, ast.Assign) and ast.unparse(s_.targets[0]) == 'name']
+        if len(nm) != 1: raise Refuse(f'{c}.name')
+        return ast.literal_eval(nm[0].value)
+    table = []
+    for names_, ex in ub:
+        if names_ is None: continue
+        if not (isinstance(ex, ast.Call) and isinstance(ex.func, ast.Name) and ex.func.id in classes and not ex.args and not ex.keywords):
+            raise Refuse(f'Unit(): branch {sorted(names_)} does not return a unit class instance')
+        for n_ in sorted(names_):
+            if n_ != n_.lower(): raise Refuse(f'Unit(): name {n_!r} can never match name.lower()')
+            if any(n_ == t[0] for t in table): raise Refuse(f'Unit(): name {n_!r} in two branches')
+            table.append((n_, _cls_name(ex.func.id)))
+    A('\n/-- `Unit(name)`: every name the if-chain accepts (compared with `name.lower()`) ↦ the `name` attribute of the class of the object returned; anything else is a ValueError -/')
+    A('def unitOfName : String → Option String')
+    for n_, c_ in table: A(f'  | "{n_}" => some "{c_}"')
+    A('  | _ => none')
+    A('def unitNames : List String := [' + ', '.join(f'"{n_}"' for n_, _ in table) + ']')
     return '\n'.join(L) + '\n', notes
 
 MODULES = [{'name': 'Units', 'src': SRC, 'generator': generate, 'props': ['C14', 'C13']}]
